@@ -12,7 +12,7 @@
 (*           exit (run() returned) . crash (run() raised)                  *)
 (*   pool:   start c . jobend c keep|close|exc (handler returned) .        *)
 (*           finish c (completion callbacks done) . cancel c               *)
-(*   driver: quiescent (every client left >= ka + 5 iterations ago)        *)
+(*   driver: quiescent (every client left >= nconn*(ka+2)+3 iterations ago) *)
 (* nr = worker.nr_conns and now = virtual clock, read after the event.     *)
 (* The envelope states C13 and nothing else; an implementation may close   *)
 (* earlier on error / departure / shutdown, reap in any order, poll        *)
